@@ -272,6 +272,12 @@ def run(prop, tier, seed, replay=None):
     keys = set()
     n_new_failures = 0
     for i, c in enumerate(cases):
+        n_timeouts = sum(1 for o in obss if isinstance(o, dict) and "did not finish within" in str(o.get("harness_error", "")))
+        if n_timeouts >= 3:
+            # the real code does not come back on case after case: stop here, the verdict is a broken correspondence
+            _hist_add(hist, "cases_not_run_after_repeated_timeouts", len(cases) - i)
+            cases = cases[:i]
+            break
         if n_new_failures >= 8 and time.time() - t0 > 60:
             # enough counter-examples that are not known findings, and the run is getting long: go to the verdict
             _hist_add(hist, "cases_not_run_after_repeated_failures", len(cases) - i)
@@ -355,10 +361,15 @@ def run(prop, tier, seed, replay=None):
         srng = random.Random(seed * 7919 + 17)
         found = None
         tried = 0
+        search_timeouts = 0
         for c in prop.search_cases(srng, seeds, prop.search_budget[tier], tier):
             c = canon(c)
             tried += 1
             o = prop.safe_impl(c)
+            if isinstance(o, dict) and "did not finish within" in str(o.get("harness_error", "")):
+                search_timeouts += 1
+                if search_timeouts >= 2:
+                    break
             f = judge(prop, c, o, [], 0)
             if f:
                 fp = prop.fingerprint(c, o, f)
